@@ -93,13 +93,108 @@ fn c07_key(p: &Params, kind: &str) -> String {
     format!("cfg[{}]:{kind}", deviation(p))
 }
 
+/// run (configuration, histories) jobs on the current pool; returns (jobs done, configurations seen, failing configurations, complete)
+fn c07_exec(ctx: &mut Ctx, cfg: &BCfg, jobs: &[(Params, Vec<Vec<u8>>, &'static str)], limit: f64, tag: &str) -> (usize, std::collections::BTreeSet<Params>, std::collections::BTreeSet<Params>, bool) {
+    let payloads: Vec<Vec<u8>> = jobs
+        .iter()
+        .map(|(p, hs, _)| {
+            let mut b = Buf::new();
+            b.u8(JOB_C07_RUN);
+            p.enc(&mut b);
+            b.u32(hs.len() as u32);
+            for h in hs {
+                b.bytes(h);
+            }
+            b.0
+        })
+        .collect();
+    let t0 = ctx.run.elapsed();
+        let mut configs_seen: std::collections::BTreeSet<Params> = Default::default();
+    let mut complete = true;
+    let mut jdone = 0usize;
+    let chunk = ctx.pool.size() * 4;
+    let mut bad_configs: std::collections::BTreeSet<Params> = Default::default();
+    let mut lo = 0usize;
+    while lo < jobs.len() {
+        if ctx.run.elapsed() - t0 > limit {
+            complete = false;
+            break;
+        }
+        let hi = (lo + chunk).min(jobs.len());
+        // configurations already known to fail are not run again (each failure costs a watchdog period)
+        let idxs: Vec<usize> = (lo..hi).filter(|i| !bad_configs.contains(&jobs[*i].0)).collect();
+        let batch: Vec<Vec<u8>> = idxs.iter().map(|i| payloads[*i].clone()).collect();
+        let results = ctx.pool.map(&batch, |i| i);
+        for (bi, res) in results.into_iter().enumerate() {
+            let ji = idxs[bi];
+            let (p, hs, _what) = &jobs[ji];
+            jdone += 1;
+            configs_seen.insert(*p);
+            let mut report = |ctx: &mut Ctx, key: String, msg: String, seq: &[u8], pos: usize| {
+                let mut case = Buf::new();
+                p.enc(&mut case);
+                case.bytes(seq);
+                let mut story = vec![format!("configuration: {}", p.label())];
+                let mut c2 = cfg.clone();
+                c2.maps[0].params = *p;
+                story.extend(seq_story(&c2, seq, pos));
+                story.push(format!("observed: {msg}"));
+                ctx.run.violation(Violation { prop: "C07".into(), key, message: format!("{tag}under {}: {msg}", p.label()), replay: Replay { engine: "C07".into(), config: cfg.enc(), case: case.0, story } });
+            };
+            match res {
+                JobResult::Done(b) => {
+                    let o = BOutcome::dec(&b);
+                    ctx.states += o.sequences;
+                    ctx.transitions += o.calls;
+                    if let Some((seq, pos, kind, msg)) = o.failure {
+                        bad_configs.insert(*p);
+                        report(ctx, format!("{tag}{}", c07_key(p, &kind)), msg, &seq, pos);
+                    }
+                }
+                JobResult::Crashed { progress, how } => {
+                    bad_configs.insert(*p);
+                    let kind = if how.contains("hang") { "hang" } else { "abort" };
+                    let key = format!("{tag}{}", c07_key(p, kind));
+                    let si = progress.unwrap_or(0) as usize;
+                    let seq = hs.get(si).cloned().unwrap_or_default();
+                    if !ctx.run.violations.iter().any(|v| v.key == key) {
+                        // confirm alone
+                        let mut b = Buf::new();
+                        b.u8(JOB_C07_RUN);
+                        p.enc(&mut b);
+                        b.u32(1).bytes(&seq);
+                        match ctx.pool.run_isolated(&b.0) {
+                            JobResult::Crashed { how: how2, .. } => {
+                                report(ctx, key, format!("the history does not return normally: {how}; confirmed alone in a fresh process: {how2}"), &seq, seq.len());
+                            }
+                            JobResult::Done(_) => crate::report::machinery_failure(&format!("C07: a crash under {} did not reproduce in isolation ({how})", p.label())),
+                        }
+                    } else {
+                        ctx.run.add("further_crashes_with_a_reported_key", 1);
+                    }
+                }
+            }
+        }
+        lo = hi;
+        if ctx.run.too_many() {
+            complete = false;
+            break;
+        }
+    }
+    (jdone, configs_seen, bad_configs, complete)
+}
+
 pub fn c07(tier: &str, seed: u64) -> i32 {
     let mut ctx = Ctx::new("C07", tier, seed, "model_checking");
     let thorough = ctx.thorough();
     // 3 keys (one of 60000 bytes), values of 10 / 100000 / 300000 bytes: .val and .key exceed a
     // two-chunk buffer, so eviction with dirty write-back happens inside a history
-    let mut m0 = std_map(KtId::Bytes, 64, 2, 9, seed, "m");
-    m0.keys.push(crate::alphabet::keys_in_bucket(KtId::Bytes, 64, 5, 1, 60_000, seed, &[]).pop().unwrap());
+    // two colliding keys whose records sit exactly on a slot-class edge (11 bytes as chain tail, 10 as
+    // head), so that an offset growing by a byte under some configuration really moves a record, and a
+    // third key of 60000 bytes in the same bucket (the key file passes 16 KiB and 128 KiB)
+    let mut m0 = std_map(KtId::Bytes, 64, 1, 11, seed, "m");
+    m0.keys.extend(crate::alphabet::keys_in_bucket(KtId::Bytes, 64, 3, 1, 10, seed, &m0.keys));
+    m0.keys.push(crate::alphabet::keys_in_bucket(KtId::Bytes, 64, 3, 1, 60_000, seed, &[]).pop().unwrap());
     let mut letters = Vec::new();
     for k in 0..3u8 {
         for v in 0..3u8 {
@@ -234,91 +329,44 @@ pub fn c07(tier: &str, seed: u64) -> i32 {
         }
         jobs.push((*p, hfix[..4].to_vec(), "fixed histories"));
     }
-    let payloads: Vec<Vec<u8>> = jobs
-        .iter()
-        .map(|(p, hs, _)| {
-            let mut b = Buf::new();
-            b.u8(JOB_C07_RUN);
-            p.enc(&mut b);
-            b.u32(hs.len() as u32);
-            for h in hs {
-                b.bytes(h);
-            }
-            b.0
-        })
-        .collect();
-    let t0 = ctx.run.elapsed();
     let limit = if thorough { 900.0 } else { 45.0 };
-    let mut configs_seen: std::collections::BTreeSet<Params> = Default::default();
-    let mut complete = true;
-    let mut jdone = 0usize;
-    let chunk = ctx.pool.size() * 4;
-    let mut bad_configs: std::collections::BTreeSet<Params> = Default::default();
-    let mut lo = 0usize;
-    while lo < jobs.len() {
-        if ctx.run.elapsed() - t0 > limit {
-            complete = false;
-            break;
-        }
-        let hi = (lo + chunk).min(jobs.len());
-        // configurations already known to fail are not run again (each failure costs a watchdog period)
-        let idxs: Vec<usize> = (lo..hi).filter(|i| !bad_configs.contains(&jobs[*i].0)).collect();
-        let batch: Vec<Vec<u8>> = idxs.iter().map(|i| payloads[*i].clone()).collect();
-        let results = ctx.pool.map(&batch, |i| i);
-        for (bi, res) in results.into_iter().enumerate() {
-            let ji = idxs[bi];
-            let (p, hs, _what) = &jobs[ji];
-            jdone += 1;
-            configs_seen.insert(*p);
-            let mut report = |ctx: &mut Ctx, key: String, msg: String, seq: &[u8], pos: usize| {
-                let mut case = Buf::new();
-                p.enc(&mut case);
-                case.bytes(seq);
-                let mut story = vec![format!("configuration: {}", p.label())];
-                let mut c2 = cfg.clone();
-                c2.maps[0].params = *p;
-                story.extend(seq_story(&c2, seq, pos));
-                story.push(format!("observed: {msg}"));
-                ctx.run.violation(Violation { prop: "C07".into(), key, message: format!("under {}: {msg}", p.label()), replay: Replay { engine: "C07".into(), config: cfg.enc(), case: case.0, story } });
-            };
-            match res {
-                JobResult::Done(b) => {
-                    let o = BOutcome::dec(&b);
-                    ctx.states += o.sequences;
-                    ctx.transitions += o.calls;
-                    if let Some((seq, pos, kind, msg)) = o.failure {
-                        bad_configs.insert(*p);
-                        report(&mut ctx, c07_key(p, &kind), msg, &seq, pos);
-                    }
-                }
-                JobResult::Crashed { progress, how } => {
-                    bad_configs.insert(*p);
-                    let kind = if how.contains("hang") { "hang" } else { "abort" };
-                    let key = c07_key(p, kind);
-                    let si = progress.unwrap_or(0) as usize;
-                    let seq = hs.get(si).cloned().unwrap_or_default();
-                    if !ctx.run.violations.iter().any(|v| v.key == key) {
-                        // confirm alone
-                        let mut b = Buf::new();
-                        b.u8(JOB_C07_RUN);
-                        p.enc(&mut b);
-                        b.u32(1).bytes(&seq);
-                        match ctx.pool.run_isolated(&b.0) {
-                            JobResult::Crashed { how: how2, .. } => {
-                                report(&mut ctx, key, format!("the history does not return normally: {how}; confirmed alone in a fresh process: {how2}"), &seq, seq.len());
-                            }
-                            JobResult::Done(_) => crate::report::machinery_failure(&format!("C07: a crash under {} did not reproduce in isolation ({how})", p.label())),
-                        }
-                    } else {
-                        ctx.run.add("further_crashes_with_a_reported_key", 1);
-                    }
-                }
+    let t0 = ctx.run.elapsed();
+    let (jdone, configs_seen, bad_configs, mut complete) = c07_exec(&mut ctx, &cfg, &jobs, limit, "");
+    // the alternative cargo feature sets of the crate: the workers are rebuilt with each of them
+    // (./check builds them for the thorough tier); the format may differ from the documented default,
+    // so only the model and the re-open oracle are used there
+    let mut alt_done: Vec<String> = Vec::new();
+    if thorough || std::env::var("ABYV_ALT_FEATURES").is_ok() {
+        for alt in ["fs_u64u64", "fs_nobitmap", "fs_remhalf", "fs_nopin", "fs_debug", "fs_stdhasher"] {
+            let exe = crate::report::verif_root().join(format!("harness/target/alt-{alt}/release/abyv"));
+            if !exe.exists() {
+                ctx.run.notes.push(format!("feature set {alt}: worker build missing, skipped"));
+                continue;
             }
-        }
-        lo = hi;
-        if ctx.run.too_many() {
-            complete = false;
-            break;
+            let n = ctx.pool.size();
+            ctx.pool = crate::pool::Pool::new(n, vec![("ABYV_WORKER_EXE".to_string(), exe.display().to_string())], vec![]);
+            let mut c2 = cfg.clone();
+            c2.flags = F_REOPEN_END;
+            ctx.pool.reinit(vec![{
+                let mut b = Buf::new();
+                b.u8(JOB_B_CONFIG).bytes(&c2.enc());
+                b.0
+            }]);
+            ctx.pool.watchdog = std::time::Duration::from_secs(8);
+            let mut ajobs: Vec<(Params, Vec<Vec<u8>>, &'static str)> = Vec::new();
+            for p in &singles {
+                if matches!(p.ht, HtP::Default) || in_pm_class(p) {
+                    continue;
+                }
+                ajobs.push((*p, h2.clone(), "all depth-2 sequences"));
+                ajobs.push((*p, hfix.clone(), "fixed histories"));
+            }
+            let (jd, seen, bad, comp) = c07_exec(&mut ctx, &c2, &ajobs, 240.0, &format!("features[{alt}]:"));
+            eprintln!("[C07] feature set {alt}: jobs={jd} configurations={} failing={} complete={comp}", seen.len(), bad.len());
+            alt_done.push(format!("{alt}: {} configurations, {} jobs", seen.len(), jd));
+            if !comp {
+                complete = false;
+            }
         }
     }
     eprintln!("[C07] jobs={}/{} configurations={} sequences={} calls={} {:.1}s", jdone, jobs.len(), configs_seen.len(), ctx.states, ctx.transitions, ctx.run.elapsed() - t0);
@@ -335,6 +383,7 @@ pub fn c07(tier: &str, seed: u64) -> i32 {
         ("pairs_in_the_known_finding_class_not_run_in_this_tier", J::Int(pm_pairs_skipped as i64)),
         ("jobs_done", J::Int(jdone as i64)),
         ("jobs_total", J::Int(jobs.len() as i64)),
+        ("alternative_feature_sets", J::Arr(alt_done.iter().map(|x| J::s(x)).collect())),
     ]));
     for p in singles.iter().step_by(9).chain(pairs.iter().step_by(97)) {
         ctx.run.sample(J::s(&p.label()));
